@@ -49,7 +49,7 @@ func ReceiveNoHash(ctx context.Context, dst BlobReceiver, br blob.Ref, src io.Re
 }
 
 func receive(ctx context.Context, dst BlobReceiver, br blob.Ref, src io.Reader, checkHash bool) (sb blob.SizedRef, err error) {
-	src = io.LimitReader(src, MaxBlobSize)
+	src = &maxSizeReader{r: src, n: MaxBlobSize}
 	if checkHash {
 		h := br.Hash()
 		if h == nil {
@@ -66,6 +66,31 @@ func receive(ctx context.Context, dst BlobReceiver, br blob.Ref, src io.Reader, 
 	}
 	err = GetHub(dst).NotifyBlobReceived(sb)
 	return
+}
+
+// errBlobTooBig is returned when reading a blob larger than MaxBlobSize.
+var errBlobTooBig = fmt.Errorf("blob over the limit of %d bytes", MaxBlobSize)
+
+// maxSizeReader reads from r, but fails with errBlobTooBig (instead of
+// silently stopping, as an io.LimitReader would) if r has more than n
+// bytes.
+type maxSizeReader struct {
+	r io.Reader
+	n int64 // bytes that may still be returned
+}
+
+func (m *maxSizeReader) Read(p []byte) (int, error) {
+	if int64(len(p)) > m.n+1 {
+		p = p[:m.n+1]
+	}
+	n, err := m.r.Read(p)
+	if int64(n) > m.n {
+		n = int(m.n)
+		m.n = 0
+		return n, errBlobTooBig
+	}
+	m.n -= int64(n)
+	return n, err
 }
 
 // checkHashReader is an io.Reader that wraps the src Reader but turns
